@@ -743,7 +743,7 @@ class Grammar(Model):
         bfmt: str = ""
         for k in sorted(repr(k) for k in self.keywords):
             batch += [k]
-            bfmt = f"@@keyword :: {' '.join(batch)}"
+            bfmt = f"@@keyword :: ({' '.join(batch)})"
             if len(bfmt) >= PEP8_LLEN - 8:
                 keywordsets += [bfmt]
                 batch = []
